@@ -667,7 +667,7 @@ func main() {
 	}
 	c.Rule = fmt.Sprintf("(1) every .go file of the repository (<=400000 bytes) that go/parser accepts and that has no '$' in a string literal (premise: parse only); "+
 		"(2) a menu of %d self-contained Go feature items, each accepted by go/parser and go/types: every item alone, every whitespace variant of every item "+
-		"(newline after each token after which Go inserts no semicolon, one blank inserted at / all blanks removed from every token boundary; kept only when go/parser yields the identical tree), "+
+		"(newline after each token after which Go inserts no semicolon, one blank inserted at every token boundary without one, the blanks removed from every boundary that has some, and four whole-file variants: CRLF line ends, byte-order mark, no final newline, tabs as blanks; kept only when go/parser yields the identical tree), "+
 		"and every ordered pair of the first %d items in one file and one function body. Each source is parsed as a.go (ParseGoAsGoPlus|ParseComments), a.xgo (ParseComments) and a.xgo (mode 0). "+
 		"distinct_nontrivial = distinct judged source texts", len(menu), npair)
 	c.Assumptions = []string{
@@ -675,6 +675,7 @@ func main() {
 		"go/ast SendStmt.Value corresponds to XGo SendStmt.Values of length 1; XGo-only fields must be zero except BasicLit.Extra, File.{Code,ShadowEntry,NoPkgDecl,IsClass,IsProj,IsNormalGox}, FuncDecl.{Operator,Shadow,IsClass,Static}",
 		"documented deviation excluded and counted: any file with '$' inside a string literal (string interpolation)",
 		"repository files are not type-checked (premise_parse_only); generated files are type-checked with go/types and the source importer",
+		"keys: rejects:<construct> (menu item or repository file rejected; repository errors are mapped to the construct by error text and source line), tree:<GoNode>.<Field>(<GoKind>/<XGoKind>) (different tree), ws:<variant> (a whitespace variant of an item that itself agrees is rejected or parsed differently), rejects:pair:<a>+<b> (only the combination is rejected)",
 	}
 	c.Extra["bound"] = map[string]any{"menu_items": len(menu), "pair_items": npair, "ws_variants": nVariants, "corpus_files": len(names)}
 	c.Finish()
